@@ -167,4 +167,30 @@ def restored (ms : Modules) (names : List String) : Modules :=
   ordinary ms names ++ names.map (fun f => (f, (blobOf ms f).load))
 
 
+/-! ### in-place conversion -/
+
+theorem getKey?_retypeMods (f : Nat → Nat) (ms : Modules) (k : String) :
+    (retypeMods f ms).getKey? k = (ms.getKey? k).map (Sub.retype f) := by
+  induction ms with
+  | nil => rfl
+  | cons p ms ih =>
+    obtain ⟨k0, v0⟩ := p
+    simp only [retypeMods, List.map_cons] at ih ⊢
+    by_cases h0 : k0 = k <;> simp [ODict.getKey?, h0, ih]
+
+theorem isCode_retypeMods (f : Nat → Nat) (ms : Modules) (k : String) (h : IsCode ms k) :
+    IsCode (retypeMods f ms) k := by
+  obtain ⟨s, b, hs, hb⟩ := h
+  cases s with
+  | fx p => exact ⟨.fx (f p), .fx (f p), by simp [getKey?_retypeMods, hs, Sub.retype], rfl⟩
+  | ts p => exact ⟨.ts (f p), .ts (f p), by simp [getKey?_retypeMods, hs, Sub.retype], rfl⟩
+  | plain i => simp [Sub.dump?] at hb
+
+theorem registered_retype (f : Nat → Nat) (h : Heap) (o : Obj) (names : List String) (ms : Modules)
+    (hr : Registered h o names ms) : Registered (retype f h o) o names (retypeMods f ms) := by
+  have hlt : o.modules < h.length := (List.getElem?_eq_some_iff.1 hr.live).1
+  refine ⟨?_, hr.listed, hr.nodup, fun k hk => isCode_retypeMods f ms k (hr.code k hk)⟩
+  have hget : h[o.modules] = ms := (List.getElem?_eq_some_iff.1 hr.live).2
+  simp [retype, hlt, hget]
+
 end E3nnVerif.Model.CodegenState
